@@ -46,6 +46,11 @@ M = [
  ("M34", "SRC/dgstrs.c", "placeholder_gstrs", None, ["C01"], "placeholder"),
  ("M35", "SRC/sp_preorder.c", "\t        iwork[i] = post[perm_c[i]];  /* product of perm_c and post */", "\t        iwork[i] = perm_c[post[i]];  /* product of perm_c and post */", ["C10", "C01"], "postorder composed in the wrong order"),
  ("M36", "SRC/dsp_blas2.c", "    if ( !(work = doubleCalloc(L->nrow)) )\n\tABORT(\"Malloc fails for work in sp_dtrsv().\");", "    { static double swork[4096]; work = swork; memset(work, 0, sizeof(double) * L->nrow); }", ["C09"], "static scratch buffer in sp_dtrsv (also breaks the matching free)"),
+ ("M37", "SRC/dmemory.c", "\t\twhile ( StackFull(extra + extra_usub) ) {", "\t\twhile ( StackFull(extra) ) {", ["C08", "C07"], "reverts half of 61b2e22: room reserved for USUB not checked against the space left (head can run into the work arrays)"),
+ ("M38", "SRC/dgstrf.c", "\tSUPERLU_FREE (xplore);\n\tSUPERLU_FREE (xprune);\n\tdLUMemFree(fact, Glu);", "\tSUPERLU_FREE (xprune);\n\tdLUMemFree(fact, Glu);", ["C08", "C19", "C07"], "out-of-memory exit path forgets one work array (part of ce10e91)"),
+ ("M39", "SRC/dmemory.c", "\tGlu->stack.top2 = ((lwork - WorkSkip(work))/4)*4; /* must be word addressable */", "\tGlu->stack.top2 = (lwork/4)*4; /* must be word addressable */", ["C08", "C07"], "aligned workspace start not subtracted from its length: up to 7 bytes past the end for a 4-byte aligned work[]"),
+ ("M40", "SRC/ilu_zpivotL.c", "                z_add(&lu_col_ptr[pivptr], &lu_col_ptr[pivptr], &temp);", "                z_add(&lu_col_ptr[pivptr], &lu_col_ptr[pivptr], &drop_sum);", ["C15"], "reverts 57340bb for type z"),
+ ("M41", "SRC/dmemory.c", "    if ( Glu->MemModel == SYSTEM && fact != SamePattern_SameRowPerm ) {\n\tSUPERLU_FREE (Glu->xsup);", "    if ( Glu->MemModel == SYSTEM ) {\n\tSUPERLU_FREE (Glu->xsup);", ["C19", "C06"], "abandoned re-factorization frees the arrays the caller's L and U still own"),
 ]
 M = [m for m in M if m[2] and m[3] is not None and not str(m[2]).startswith("placeholder") and m[2] != "static_placeholder"]
 
